@@ -18,8 +18,16 @@ RULE = ('all ordered pairs of rectangles of an NxN grid (N=4 quick, 5 thorough) 
 SHEETS = ['', 'S1', 'S2']          # sorted order = model sheet numbers 0,1,2
 
 
+def null_inside_union(case):
+    """known finding null-inside-union: the union of an EMPTY intersection with other areas evaluates to those areas"""
+    return case.get('op') == 'formula' and case.get('kind') == 'inter-union' and bool(case.get('empty_intersection_dropped_from_union'))
+
+
+SIGNATURES = {'null_inside_union': null_inside_union}
+
+
 def new_run():
-    return Run('C06', RULE)
+    return Run('C06', RULE, SIGNATURES)
 
 
 def setup():
@@ -413,6 +421,15 @@ def check(run):
     # ---- 3. formula level ---------------------------------------------------------------------
     formula_cases(run, N)
 
+    # the exact witness of known finding null-inside-union
+    try:
+        fn = Parser().ast('=SUM((A1:A2 B1:B2,C1))')[1].compile()
+        w = fn(*[Ranges().pushes([x['name'] for x in v.ranges], [cell_values(canon(x)) for x in v.ranges]) for v in fn.inputs.values()])
+        w = np.asarray(getattr(w, 'value', w), object).ravel().tolist()
+    except Exception as ex:
+        w = ['raised ' + type(ex).__name__]
+    run.replay_witness('null-inside-union', not (len(w) == 1 and w[0] is Error.errors['#NULL!']), {'witness': '=SUM((A1:A2 B1:B2,C1))', 'impl': repr(w)})
+
     # ---- model answers ------------------------------------------------------------------------
     answers = model(requests)
     for m, h in zip(answers, pending):
@@ -434,7 +451,7 @@ def formula_cases(run, N):
     n = 150 if run.tier == 'quick' else 1500
     for i in range(n):
         a, b, c = rr(), rr(), rr()
-        kind = rnd.choice(['inter', 'union', 'range', 'union-inter'])
+        kind = rnd.choice(['inter', 'union', 'range', 'union-inter', 'inter-union'])
         ca = lambda x: collections.Counter((x[0], i_, j_) for i_ in range(x[1], x[2] + 1) for j_ in range(x[3], x[4] + 1))
         if kind == 'inter':
             f = '=SUM(%s %s)' % (ref(a), ref(b))
@@ -447,6 +464,11 @@ def formula_cases(run, N):
             f = '=SUM(%s:%s)' % (par(ref(a)), par(ref(b)))
             bb = (0, min(a[1], b[1]), max(a[2], b[2]), min(a[3], b[3]), max(a[4], b[4]))
             exp = list(ca(bb))
+        elif kind == 'inter-union':
+            # an intersection as an operand of a union: when it is empty the whole reference is #NULL!
+            f = '=SUM((%s %s,%s))' % (ref(a), ref(b), ref(c))
+            common_ab = [p for p in ca(a) if p in ca(b)]
+            exp = (common_ab + list(ca(c).elements())) if common_ab else []
         else:
             f = '=SUM((%s,%s) %s)' % (ref(a), ref(b), ref(c))
             exp = [p for p in ca(a) if p in ca(c)] + [p for p in ca(b) if p in ca(c)]
@@ -468,8 +490,12 @@ def formula_cases(run, N):
         else:
             ok = len(res) == 1 and not isinstance(res[0], str) and float(res[0]) == float(sum(cellval(*p) for p in exp))
         if not ok:
-            run.violation('formula value is not the sum over exactly the referenced cells',
-                          {'op': 'formula', 'formula': f, 'impl': repr(res), 'expected_cells': len(exp)})
+            rest_only = kind == 'inter-union' and not exp and len(res) == 1 and not isinstance(res[0], str) and \
+                float(res[0]) == float(sum(cellval(*p) for p in ca(c).elements()))
+            run.violation('formula value is not the sum over exactly the referenced cells' if exp else
+                          'a reference with an empty intersection among its operands is not #NULL!',
+                          {'op': 'formula', 'kind': kind, 'formula': f, 'impl': repr(res), 'expected_cells': len(exp),
+                           'empty_intersection_dropped_from_union': bool(rest_only)})
         if i < 4:
             run.sample({'op': 'formula', 'formula': f, 'impl': repr(res)})
 
